@@ -17,7 +17,11 @@ Inductive wkind :=
   | WOffset0 (i : winput)                    (* zero offset / zero blur: the input image itself, colour space tag included *)
   | WColorMatrix (k : cm_kind) (i : winput)
   | WTransfer (fs : list tf) (i : winput)
-  | WMerge (is : list winput).
+  | WMerge (is : list winput)
+  (* extension round 4 *)
+  | WArithmetic (k1 k2 k3 k4 : f32) (i1 i2 : winput)      (* feComposite operator="arithmetic" *)
+  | WOver (i1 i2 : winput)                                  (* feComposite operator="over" / feBlend mode="normal": in2 drawn first, in over it *)
+  | WConvolve1 (preserve : bool) (divisor bias k : f32) (i : winput).   (* feConvolveMatrix order="1" kernelMatrix="k" *)
 Record wprim := { w_kind : wkind; w_cs : cspace; w_name : N }.
 
 Definition into_cs (c : cspace) (v : img) : px :=
@@ -46,6 +50,11 @@ Definition run_prim (src : px) (results : list (N * img)) (p : wprim) : img :=
   | WColorMatrix k i => (px_color_matrix k (into_cs cs (get_input src results i)), cs)
   | WTransfer fs i => (px_component_transfer fs (into_cs cs (get_input src results i)), cs)
   | WMerge is => (fold_left (fun acc i => over_px (into_cs cs (get_input src results i)) acc) is px0, cs)
+  | WArithmetic k1 k2 k3 k4 i1 i2 =>
+      (px_arithmetic k1 k2 k3 k4 (into_cs cs (get_input src results i1)) (into_cs cs (get_input src results i2)), cs)
+  | WOver i1 i2 =>
+      (over_px (into_cs cs (get_input src results i1)) (over_px (into_cs cs (get_input src results i2)) px0), cs)
+  | WConvolve1 pa0 d b k i => (px_convolve_uniform pa0 d b [k] (into_cs cs (get_input src results i)), cs)
   end.
 Fixpoint run_prims (src : px) (results : list (N * img)) (ps : list wprim) : list (N * img) :=
   match ps with
